@@ -56,6 +56,13 @@ def check(run, prog, tier):
                                                 LS + "tdredfieldtensor.TDRedfieldRelaxationTensor"], 2,
                            "the bath correlation functions and the time axis are internal: the time-dependent tensor "
                            "no longer ends at the time-independent one")
+    run.rule("C07-G", "the operator form owns the operators it transforms: a basis change of one form does not rewrite the "
+                      "operators of the system-bath interaction or of another form built from it", minimum=10)
+    from . import c15
+    LS_ = "quantarhei.qm.liouvillespace."
+    c15.stored_inputs_intact(run, "C07-G", prog, [LS_ + "redfieldtensor.RedfieldRelaxationTensor",
+                                                  LS_ + "tdredfieldtensor.TDRedfieldRelaxationTensor",
+                                                  LS_ + "lindbladform.LindbladForm", LS_ + "lindbladform.ElectronicLindbladForm"])
 
 
 def rule_E(run, prog):
